@@ -1967,6 +1967,9 @@ static CURRENT_PROP: std::sync::Mutex<&'static str> = std::sync::Mutex::new("");
 
 /// The exec function of all RcWorld-based checks.
 pub fn exec(prop: &str, v: &serde_json::Value) -> Report {
+    if v.get("exp").is_some() {
+        return crate::sat::exec(prop, v);
+    }
     if prop == "C01" {
         *CURRENT_PROP.lock().unwrap() = "C01";
     }
